@@ -171,7 +171,25 @@ where
 		if context.calculated_excess.is_some() {
 			// self-send: the stored context is the merged one written by
 			// `process_invoice_tx`, which has already accounted for every input and
-			// output and for both excess keys: the offset is final
+			// output and for both excess keys: the offset is final.
+			// The paying half is this wallet's own: its inputs must be reserved for this
+			// transaction (tx_lock_outputs done, and not cancelled since), as the standard
+			// path requires of a send before it is finalized
+			let reserved = updater::retrieve_txs(
+				&mut *w,
+				None,
+				Some(sl.id),
+				None,
+				Some(&context.parent_key_id),
+				false,
+			)?
+			.iter()
+			.any(|t| t.tx_type == TxLogEntryType::TxSent && !t.confirmed);
+			if !reserved {
+				return Err(Error::GenericError(
+					"The outputs paying this invoice are not locked (tx_lock_outputs)".to_owned(),
+				));
+			}
 		} else {
 			sl.adjust_offset(&w.keychain(keychain_mask)?, &context)?;
 		}
